@@ -69,7 +69,7 @@ def gen_steps(r, nops, md_prob=0.10, cut_opts=(True, False, "copy")):
                     parent[i] = p; rooted[i] = True
         elif c < 0.22 + md_prob:
             x = r.choice([i for i in ids if isroot[i]] or ids)
-            steps.append({"do": "md", "node": x, "name": r.choice(["m", "cal", "only" + str(x), "shared", "", "m_copy", "_copy"]), "content": r.randrange(5)})
+            steps.append({"do": "md", "node": x, "name": r.choice(["m", "m", "cal", "cal", "shared", "shared", "only" + str(x), "only" + str(x), "", "m_copy", "_copy"]), "content": r.randrange(5)})
         elif c < 0.62:
             # graft scion under receiver (receiver not in scion's subtree, both rooted)
             sc = r.choice(ids)
